@@ -73,6 +73,8 @@ def client_ops(r, n):
             ops.append(['reset'])
         else:
             ops.append(['set_seed', r.randrange(2**31)])
+            if r.random() < 0.6:
+                ops.append(['reset'])  # a used environment, given a seed again and reset (compared with a fresh one)
     return ops
 
 
@@ -210,6 +212,10 @@ class IsoSim(Sim):
             self.tw = Tripwire(gvrng.get_gv_rng())
             gvrng._gv_rng = self.tw
 
+    def emit(self, hook, *a):
+        if hook == 'after_op':
+            a[0].meta['n_ops'] = a[0].meta.get('n_ops', 0) + 1
+
     def _around(self, cl, name, f):
         g0 = globals_digest() if self.judge_globals else None
         n0 = len(self.tw.touched) if self.tw else 0
@@ -226,6 +232,7 @@ class IsoSim(Sim):
 
     def _hist(self, cl, *items):
         cl.history.append(items + (cl.rng_state(),))
+        cl.meta.setdefault('hist_op', []).append(cl.meta.get('n_ops', 0))
         self.ctx.log('h', cl.idx, items)
 
     def op_set_seed(self, cl, seed):
@@ -383,6 +390,30 @@ def execute(record, ctx):
                 ctx.violate('isolation', 'differs_from_solo' + ('_debug_flipped' if flip else ''), d[1], d[2], -1,
                             f'client {c} ({what}) interleaved differs from its solo re-execution at its op #{d[0]}')
                 break
+    # a used environment that is given a seed again and reset must behave like a fresh environment given that seed
+    for c in range(ncl):
+        own = [o for o in record['ops'] if o[0] == c]
+        js = [j for j, o in enumerate(own) if o[1] == 'set_seed' and j >= 2 and j + 1 < len(own) and own[j + 1][1] == 'reset']
+        if not js:
+            continue
+        j = js[-1]
+        rec2 = solo_record(record, c, False)
+        rec2['ops'] = rec2['ops'][j:]
+        from gvsim.kernel import Ctx
+
+        prepare_globals(rec2)
+        sctx = Ctx(rec2)
+        fresh = IsoSim(rec2, sctx, judge_globals=False)
+        fresh.run()
+        ctx.ticks += sctx.ticks
+        ctx.probe('reseeded_vs_fresh')
+        hop = sim.clients[c].meta.get('hist_op', [])
+        tail = [e for e, k in zip(hist[c], hop) if k >= j]
+        d = first_diff(tail, fresh.clients[0].history)
+        if d is not None:
+            ctx.violate('isolation', 'reseeded_environment_differs_from_fresh', d[1], d[2], -1,
+                        f'client {c} ({_what(record["clients"][c])}): after set_seed + reset on a used environment its history differs from a fresh environment given the same seed (history entry #{d[0]} after the seed)')
+            break
     prepare_globals(record)
     if ctx.ticks >= 10 and ctx.fired > 0 and ctx.stats.get('probe:stochastic_draw'):
         ctx.distinct.add(ctx.trace_digest())
